@@ -11,6 +11,34 @@ open KB.Generated
 /-- C04: every write handler reports its revision after its storage work. -/
 theorem writes_notify_after_storage : writesNotifyAfterStorage = true := by decide
 
+/-- C04: every slot index of the sequencer's ring is taken modulo the ring's own length (the model's slots
+are indexed by the revision itself; `ring_window_injective` is why that is the same thing). -/
+theorem ring_indices_use_ring_len : ringIndicesUseRingLen = true := by decide
+
+/-- C04: the "buffer full" fail-stop in `notify` compares the backlog `revision - committed` with the ring's
+length and comes before the slot is written: a slot is only ever written for a revision inside the window
+`(committed, committed + len)`. -/
+theorem notify_guard_matches_ring_len : notifyGuardMatchesRingLen = true := by decide
+
+/-- C04: the sequencer empties a consumed slot before it looks at the event's validity, so the slot of an
+invalid event (failed condition, error, drift, unknown outcome) is released as well and is empty again one
+lap later. -/
+theorem slot_cleared_before_validity_check : seqClearsSlotBeforeValidityCheck = true := by decide
+
+/-- Two unconsumed revisions inside one window of the ring never share a slot: with the guard above, the
+ring of `cap` slots indexed by `revision % cap` behaves as the model's map from revisions to slots. -/
+theorem ring_window_injective (cap c r1 r2 : Nat) (h1 : c < r1) (h1' : r1 < c + cap) (h2 : c < r2) (h2' : r2 < c + cap)
+    (h : r1 % cap = r2 % cap) : r1 = r2 := by
+  rcases Nat.le_total r1 r2 with hle | hle
+  · have hz : (r2 - r1) % cap = 0 := Nat.sub_mod_eq_zero_of_mod_eq h.symm
+    have hlt : r2 - r1 < cap := by omega
+    rw [Nat.mod_eq_of_lt hlt] at hz
+    omega
+  · have hz : (r1 - r2) % cap = 0 := Nat.sub_mod_eq_zero_of_mod_eq h
+    have hlt : r1 - r2 < cap := by omega
+    rw [Nat.mod_eq_of_lt hlt] at hz
+    omega
+
 theorem order_facts_resolved : orderFactsUnresolved = [] := by decide
 
 end KB.OrderC04
